@@ -12,8 +12,10 @@ def parseOutcome (s : String) : Except String Outcome :=
   | "unconvertible" => pure .unconvertible
   | "send_exc" => pure (.sendFails .exc)
   | "send_base" => pure (.sendFails .base)
-  | "dies_exc" => pure (.dies .exc)
+  | "dies_exc" => pure (.stubFails .exc)   -- the bench fails `SnapshotServiceStub(channel)` (convert_snapshot catches Exception)
   | "dies_base" => pure (.dies .base)
+  | "stub_exc" => pure (.stubFails .exc)
+  | "meta_exc" => pure (.metaFails .exc)
   | _ => throw s!"unknown outcome {s}"
 
 def parseStep (j : Json) : Except String Step := do
@@ -65,7 +67,10 @@ def handleSubmitters (j : Json) : Except String Json := do
   let rs ← qs.toList.mapM (fun q => do
     let fn ← getStr q "func"
     let isOpen ← getBool q "open"
-    let th : TH := { TH.init with isOpen := isOpen }
+    let noHandler := match q.getObjVal? "no_handler" with
+      | .ok (Json.bool b) => b
+      | _ => false
+    let th : Option TH := if noHandler then none else some { TH.init with isOpen := isOpen }
     match submitSites.find? (fun s => s.func == fn) with
     | some site => pure (refusalJson (siteOutcome site th))
     | none => pure (Json.str "unknown-site"))
